@@ -9,6 +9,12 @@ import SlimProps.BridgeSem.LeafIndex
 import SlimProps.BridgeSem.ToKeep
 import SlimProps.BridgeSem.StepToPos
 import SlimProps.BridgeSem.ShortSize
+import SlimProps.BridgeSem.StrCmp
+import SlimProps.BridgeSem.EncCodec
+import SlimProps.BridgeSem.LeftChild
+import SlimProps.BridgeSem.VLen
+import SlimProps.BridgeSem.ArrayGet
+import SlimProps.BridgeSem.IndexGlue
 /-
   SlimProps.BridgeSem — tie 1, semantic part: the small pure functions of the Go source, translated
   to Lean on every check run (lean/Generated/Funcs.lean, written by harness/cmd/extract/translate.go
@@ -49,5 +55,16 @@ import SlimProps.BridgeSem.ShortSize
     Offsets       bigInnerOffset_sem, shortMinusInner_sem, innerFromBig_sem, innerFromSmall_sem,
                   innerFrom_offset_sem
     LeafIndex     getLeafIndex_sem
+    StrCmp        cmpStrBytes_sem, strCmpUpto_sem                      (trie/strcmp.go)
+    EncCodec      encodeU16_sem encodeU32_sem encodeU64_sem, decodeU16_sem decodeU32_sem decodeU64_sem,
+                  encodeI8_sem … encodeI64_sem, decodeI8_sem … decodeI64_sem   (encode/int.go, int8.go)
+    LeftChild     leftChildShortRank_sem, leftChildShortBit_sem, leftChildBitPos_sem  (getLeftChildID),
+                  leftMostNext_sem, rightMostBitPos_sem, rightMostNext_sem, rightMostNext_model
+                                                                       (one step of leftMost / rightMost)
+    VLen          vlenWordI_sem, vlenBitI_sem, vlenIthElt_sem, vlenFixedFrom_sem      ((*VLenArray).get)
+    ArrayGet      arrayBmWord_sem, arrayBmBit_sem, arrayU16Cnt1_sem, arrayU16StIdx_sem,
+                  arrayGetBytesStIdx_sem                               (array/base.go, array/int.go)
+    IndexGlue     newSlimIndexArgs_sem, newSlimIndex_model, slimIndexGetOffset_sem,
+                  slimIndexRangeGetOffset_sem                          (index/index.go)
 -/
 
